@@ -1,3 +1,4 @@
 import EdzedProofs.Basic
 import EdzedProofs.Counter
+import EdzedProofs.Lifecycle
 import EdzedProofs.Simulate
